@@ -146,6 +146,10 @@ func (c *ServerChannel) sendEstablishedSession(ctx context.Context, node Node) e
 		return fmt.Errorf("cannot establish the session in the %v state", c.state)
 	}
 
+	// Holds back the envelopes of the concurrent senders until the established session is sent
+	c.sendMu.Lock()
+	defer c.sendMu.Unlock()
+
 	c.setState(SessionStateEstablished)
 
 	c.remoteNode = node
@@ -415,7 +419,11 @@ func (c *ServerChannel) FinishSession(ctx context.Context) error {
 		State: SessionStateFinished,
 	}
 
+	// No other envelope should be sent after the finished session
+	c.sendMu.Lock()
 	err := c.sendSession(ctx, &ses)
+	c.setStateWLock(SessionStateFinished)
+	c.sendMu.Unlock()
 
 	c.setState(SessionStateFinished)
 
@@ -441,7 +449,12 @@ func (c *ServerChannel) FailSession(ctx context.Context, reason *Reason) error {
 		State:  SessionStateFailed,
 		Reason: reason,
 	}
+
+	// No other envelope should be sent after the failed session
+	c.sendMu.Lock()
 	err := c.sendSession(ctx, &ses)
+	c.setStateWLock(SessionStateFailed)
+	c.sendMu.Unlock()
 
 	c.setState(SessionStateFailed)
 
